@@ -16,6 +16,11 @@ CHECKS = {
    note="Assumes fingerprints do not change between a `go list` and the hash calls labelling its result (AtomicPrepareEnv). Bounded: 2-3 packages, 2 fingerprint versions, <= 2 callers, <= 4 calls in quick. Trusted: TLC, the stub go (honours the -f template), Go race-free harness gates. Concurrent free-running traces under -race are thorough-tier only.",
    technique="TLA+ spec + TLC exhaustive (design, 2 callers) + gated transition-tour/simulation replay on the real cache",
    design_ref="DESIGN.md section 5 C20"),
+ "C16": dict(level="model_checking",
+   text="Builder.tla is the CodeBuilder as a stack machine: operand stack, open-construct frames (function, closure, inline closure, block, vblock, if/else, for/post, range, switch/case, type switch, select/comm, initialiser contexts), scope identity and depth, current function, label table; one action per public operation, enabled where the call protocol allows. TLC checks the balance law (Balanced, StmtBoundary, DepthOK, FnOK, action property EndRestores) and enumerates all histories of six construct-family configurations at full length plus simulated deep histories (nesting to 9-10); each history is replayed on a fresh real package and stack length, scope identity and depth, current function, visible labels and InVBlock are compared with the prediction after every operation.",
+   note="Histories contain only protocol-legal operations (error paths are not claimed). Element types are abstract tags (int/bool/fn/void/ref/type/iface/slice). Bounded: nesting <= 6 exhaustively (<= 10 by simulation), 6-9 operations exhaustively (60-80 by simulation). Trusted: TLC, go/types scopes as identity of lexical scopes.",
+   technique="TLA+ spec + TLC exhaustive history enumeration/simulation + per-step replay on the real CodeBuilder",
+   design_ref="DESIGN.md section 5 C16"),
 }
 
 def sh(cmd):
